@@ -346,6 +346,81 @@ def run_kid_history(case) -> dict:
     return {"viol": viol, "digest": str(case["seed"]), "key": common.key_hash(case), "fired": {"parties": 1}, "probes": {"key_identifier_histories": 1}, "vtime_ns": 0}
 
 
+NUL_NAMES = ["\x00", "domain.test\x00", "x\x00\x00", "a\x00b", "\x00a", "\x00\x00\x00", "b\u00fccher\x00"]
+
+
+def _buffers(raw: bytes, r) -> t.List[t.Tuple[str, t.Any]]:
+    """The same encoded structure as every buffer type the decoders are declared to accept (what a caller slices out of a receive
+    buffer is rarely an immutable bytes object)."""
+    off = r.randrange(1, 9)
+    ba = bytearray(b"\xAA" * off + raw + b"\xBB" * 3)
+    return [("bytes", raw), ("bytearray", bytearray(raw)), ("memoryview-of-bytes", memoryview(raw)), ("memoryview-of-bytearray", memoryview(bytearray(raw))),
+            ("slice-of-receive-buffer", memoryview(ba)[off : off + len(raw)])]
+
+
+def run_codec_inputs(case) -> dict:
+    """{"kind": "codec-inputs", "seed": s}: every structure, encoded by the independent encoder with names that may END in U+0000 or
+    contain it, is decoded by the library from bytes, bytearray, memoryview (read-only and writable) and a slice of a larger
+    receive buffer; each decode must give the encoded field values and re-encode to the same bytes."""
+    import random
+    import uuid
+
+    import dpapi_ng._blob as dblob
+    import dpapi_ng._gkdi as dg
+
+    r = random.Random(case["seed"])
+    k = case["seed"]
+    names = NAMES + NUL_NAMES
+    dom, forest = r.choice(names), r.choice(names)
+    rkid = uuid.UUID(int=r.getrandbits(128))
+    kl = r.choice((2, 8, 9, 256))
+    p_ = (1 << (8 * kl - 1)) | (2 * r.getrandbits(8 * kl - 3) + 1)
+    g_, y_ = r.randrange(2, 9), r.getrandbits(8 * kl - 8 * r.randrange(0, 2) - 1) % p_
+    hash_name = offline.HASHES[k % 4]
+    curve = ("P256", "P384", "P521")[k % 3]
+    n = {"P256": 32, "P384": 48, "P521": 66}[curve]
+    ex, ey = r.getrandbits(8 * n - 8 * r.randrange(0, 2) - 1), r.getrandbits(8 * n - 1)
+    env = {"version": 1, "flags": 2 + k % 2, "l0": r.randrange(300, 500), "l1": r.randrange(32), "l2": r.randrange(32), "root_key_id": rkid,
+           "kdf_alg": "SP800_108_CTR_HMAC", "kdf_params": gkdi.pack_kdf_params(hash_name), "secret_alg": ("DH", "ECDH_P256", "ECDH_P384")[k % 3],
+           "secret_params": gkdi.pack_dh_params(kl, p_, g_) if k % 3 == 0 else b"", "private_key_length": 256 + k % 3, "public_key_length": 2048,
+           "domain": dom, "forest": forest, "l1_key": bytes([k % 256]) * (64 if k % 2 else 0), "l2_key": bytes([(k + 1) % 256]) * (64 if k % 5 else 0)}
+    kid = {"version": 1, "flags": 1 + 2 * (k % 2), "l0": env["l0"], "l1": env["l1"], "l2": env["l2"], "root_key_id": rkid, "key_info": bytes(range(k % 70)),
+           "domain": dom, "forest": forest}
+    ecraw = {"P256": b"ECK1", "P384": b"ECK3", "P521": b"ECK5"}[curve] + n.to_bytes(4, "little") + ex.to_bytes(n, "big") + ey.to_bytes(n, "big")
+    structs = [
+        ("envelope", gkdi.pack_envelope(env), dg.GroupKeyEnvelope.unpack,
+         lambda o: (o.l0, o.l1, o.l2, o.root_key_identifier, o.domain_name, o.forest_name, bytes(o.l1_key), bytes(o.l2_key), bytes(o.kdf_parameters), bytes(o.secret_parameters)),
+         (env["l0"], env["l1"], env["l2"], rkid, dom, forest, env["l1_key"], env["l2_key"], env["kdf_params"], env["secret_params"])),
+        ("key-identifier", gkdi.pack_key_identifier(kid), dblob.KeyIdentifier.unpack,
+         lambda o: (o.l0, o.l1, o.l2, o.root_key_identifier, o.domain_name, o.forest_name, bytes(o.key_info)), (kid["l0"], kid["l1"], kid["l2"], rkid, dom, forest, kid["key_info"])),
+        ("kdf-parameters", gkdi.pack_kdf_params(hash_name), dg.KDFParameters.unpack, lambda o: (o.hash_name,), (hash_name,)),
+        ("ffc-dh-parameters", gkdi.pack_dh_params(kl, p_, g_), dg.FFCDHParameters.unpack, lambda o: (o.key_length, o.field_order, o.generator), (kl, p_, g_)),
+        ("ffc-dh-key", gkdi.pack_dh_key(kl, p_, g_, y_), dg.FFCDHKey.unpack, lambda o: (o.key_length, o.field_order, o.generator, o.public_key), (kl, p_, g_, y_)),
+        ("ecdh-key", ecraw, dg.ECDHKey.unpack, lambda o: (o.curve_name, o.key_length, o.x, o.y), (curve, n, ex, ey)),
+    ]
+    viol = None
+    probes = {"codec_input_cases": 1}
+    if dom.endswith("\x00") or forest.endswith("\x00"):
+        probes["name_ending_in_nul_character"] = 1
+    for sname, raw, unpack, fields, want in structs:
+        for bname, buf in _buffers(raw, r):
+            try:
+                o = unpack(buf)
+                got = fields(o)
+                back = bytes(o.pack())
+            except Exception as e:  # noqa: BLE001
+                viol = common.violation("C11", "structures", sname, "decode-raises", type(e).__name__, bname,
+                                        f"{sname} given as {bname}: {e!r} (domain={dom!r} forest={forest!r})")
+                break
+            if got != want or back != raw:
+                viol = common.violation("C11", "structures", sname, "fields" if got != want else "re-encode", "", bname if bname != "bytes" else "",
+                                        f"{sname} given as {bname} decodes to {str(got)[:200]} (encoded: {str(want)[:200]}); re-encodes to the same bytes: {back == raw}")
+                break
+        if viol:
+            break
+    return {"viol": viol, "digest": str(case["seed"]), "key": common.key_hash(case), "fired": {"parties": 1}, "probes": probes, "vtime_ns": 0}
+
+
 def run_threads(case) -> dict:
     """{"kind": "threads", ...}: 2..4 caller threads encode / decode MS-GKDI structures at the same time."""
     import random
@@ -372,14 +447,15 @@ class C11(common.Check):
             "identically; key identifiers in emitted blobs; 2..4 caller threads of one process encode / decode the structures at the same time "
             "(pre-empted at PRNG-chosen line events inside dpapi_ng) and every result must equal the one computed alone; a reply whose name bytes are damaged (odd length, half a surrogate pair) followed "
             "by well-formed replies in the same process; key identifiers whose names differ only in case / normalisation form decoded one after "
-            "the other. Non-trivial = every plan; distinct = distinct plan.")
+            "the other; every structure (names that end in / contain U+0000 included) handed to the decoders as bytes, bytearray, read-only / writable memoryview and as a slice "
+            "of a larger receive buffer. Non-trivial = every plan; distinct = distinct plan.")
     components = {"client": "real (GetKey.pack, GetKey.unpack_response, GroupKeyEnvelope.unpack, KeyIdentifier.pack, parameter/key structures)",
                   "LibDC": "real codecs in the server role (GetKey.unpack, VerificationTrailer.unpack, GroupKeyEnvelope.pack)",
                   "RefDC": "model (ref.rpce NDR64, ref.gkdi structures)", "transport / clock / entropy": "simulated"}
     assumptions = ["structure values that no party can send in this protocol (e.g. an envelope with L1 = 2^32-1) are outside the technique and not claimed",
                    "NDR referent ids are free and compared through the decoder"]
     required_fired = tuple("sd_len_mod8_%d" % i for i in (0, 4)) + ("root_key_ptr_null", "root_key_ptr_set", "reply_seed", "reply_public") + \
-        tuple("env_len_mod8_%d" % i for i in range(8)) + ("envelope_boundary_values", "p521_public_key_decoded", "nil_guid_root_key_id", "thread_structure_cases", "thread_overlap", "damaged_name_then_valid", "key_identifier_histories")
+        tuple("env_len_mod8_%d" % i for i in range(8)) + ("envelope_boundary_values", "p521_public_key_decoded", "nil_guid_root_key_id", "thread_structure_cases", "thread_overlap", "damaged_name_then_valid", "key_identifier_histories", "codec_input_cases", "name_ending_in_nul_character")
 
     def cases(self, tier, seed):
         rng = prng.stream(seed, "C11")
@@ -396,6 +472,8 @@ class C11(common.Check):
             out.append({"kind": "name-damage", "seed": rng.getrandbits(30), "which": k, "fl": [("sync", "async")[k % 2], ("sync", "async")[(k // 2) % 2]]})
         for k in range(300 if tier == "quick" else 20000):
             out.append({"kind": "threads", "seed": rng.getrandbits(30), "n": 2 + k % 3, "policy": threadpure.policy_for(k, seams=False)})
+        for k in range(600 if tier == "quick" else 30000):
+            out.append({"kind": "codec-inputs", "seed": rng.getrandbits(30)})
         return out
 
     def run_case(self, case):
@@ -405,6 +483,8 @@ class C11(common.Check):
             return run_name_damage(case)
         if case.get("kind") == "kid-history":
             return run_kid_history(case)
+        if case.get("kind") == "codec-inputs":
+            return run_codec_inputs(case)
         tr_ref = P.execute_plan(case)
         tr_lib = P.execute_plan(dict(case, dc=dict(case["dc"], lib_codecs=True)))
         viol, probes = judge(case, tr_ref, tr_lib)
@@ -412,7 +492,7 @@ class C11(common.Check):
                 "probes": probes, "vtime_ns": tr_ref.world.stats.get("vtime_ns", 0)}
 
     def shrink(self, case):
-        if case.get("kind") in ("name-damage", "kid-history"):
+        if case.get("kind") in ("name-damage", "kid-history", "codec-inputs"):
             return
         if case.get("kind") == "threads":
             pol = case["policy"]
@@ -437,7 +517,7 @@ class C11(common.Check):
                 yield dict(case, dc=dict(case["dc"], **{k: "d.test"}))
 
     def sample_repr(self, case, res):
-        if case.get("kind") in ("threads", "name-damage", "kid-history"):
+        if case.get("kind") in ("threads", "name-damage", "kid-history", "codec-inputs"):
             return case
         rk = case["root_keys"][0]
         return {"root_key": rk[:3], "domain": case["dc"]["domain"], "forest": case["dc"]["forest"],
